@@ -12,12 +12,12 @@ import (
 
 // ScriptOpts steer script generation.
 type ScriptOpts struct {
-	MaxMsgs   int
-	MaxSize   int
-	Pacing    string // eager, lag, mixed
-	Status    bool   // random non-OK statuses allowed
-	Meta      bool   // headers / trailers / request metadata
-	Shapes    []string
+	MaxMsgs    int
+	MaxSize    int
+	Pacing     string // eager, lag, mixed
+	Status     bool   // random non-OK statuses allowed
+	Meta       bool   // headers / trailers / request metadata
+	Shapes     []string
 	BudgetLeft *int // total payload bytes budget shared across RPCs (nil = none)
 	BigProb    int  // percentage of multi-megabyte messages
 }
